@@ -261,18 +261,21 @@ func (c *Conn) Close() error {
 	if c.markClosed() {
 		return nil
 	}
+	// Whatever happens below, the read side ends and the handler forgets the
+	// stream: blocked readers return and late data is refused.
+	defer c.closeRead()
 
 	// Flush any remaining data to be written.
 	c.writeLock.Lock()
-	err := c.writeBuf.Flush()
-	if err == nil {
-		err = c.closeFlushFunc()
+	flushErr := c.writeBuf.Flush()
+	if flushErr == nil {
+		flushErr = c.closeFlushFunc()
 	}
 	c.writeLock.Unlock()
-	if err != nil {
-		return err
-	}
 
+	// If the data could not be flushed (for example because the peer refused an
+	// earlier packet and the writer kept that error) the stream is closed all
+	// the same and the peer is told; the error is reported once that is done.
 	ctx := context.Background()
 	if !c.stanzaWriter.writeDeadline.IsZero() {
 		var cancel context.CancelFunc
@@ -283,11 +286,13 @@ func (c *Conn) Close() error {
 		To:   c.stanzaWriter.to,
 		Type: stanza.SetIQ,
 	})
-	if err != nil {
-		return err
+	if err == nil {
+		err = respReadCloser.Close()
 	}
-	c.closeRead()
-	return respReadCloser.Close()
+	if flushErr != nil {
+		return flushErr
+	}
+	return err
 }
 
 // closeRead ends the read side: the stream is removed from the handler, data
